@@ -62,7 +62,12 @@ def step(name):
     f, args, kwargs = build()
     before = SN.digest(SN.canon([args, kwargs]))
     try:
-        res = ("ok", SN.canon(f(*args, **kwargs)))
+        raw = f(*args, **kwargs)
+        res = ("ok", SN.canon(raw))
+        # the caller owns what it was handed: a returned buffer is wiped after use (as key material is);
+        # later calls must not see that
+        for b in ([raw] if isinstance(raw, bytearray) else [x for x in raw if isinstance(x, bytearray)] if isinstance(raw, (tuple, list)) else []):
+            b[:] = bytes(len(b))
     except RecursionError:
         res = ("raise", "RecursionError")
     except Exception as e:  # noqa: BLE001 - an exception is an outcome; it must leave the state untouched too
@@ -82,6 +87,14 @@ def step(name):
 
 
 # ------------------------------------------------------------------ systematically generated neighbours
+class _IntSub(int):
+    __slots__ = ()
+
+
+class _TaggedBytes(bytes):
+    __slots__ = ()
+
+
 def _perturb(v):
     """[(label, value)] structurally close variants of one argument: what a memo table keyed on
     too little of its input would confuse with the original"""
@@ -99,9 +112,12 @@ def _perturb(v):
         out.append(("plus-00", b + b"\x00"))
         out.append(("as-memoryview", memoryview(b)))
         out.append(("as-bytearray", bytearray(b)) if isinstance(v, bytes) else ("as-bytes", b))
+        out.append(("as-bytes-subclass", _TaggedBytes(b)))
     elif isinstance(v, int):
         from fractions import Fraction
-        out += [("+1", v + 1), ("-1", v - 1), ("as-Fraction", Fraction(v))]
+        out += [("+1", v + 1), ("-1", v - 1), ("as-Fraction", Fraction(v)),
+                # equal hash() in CPython: what a table keyed on hash(arguments) confuses with the original
+                ("+hash-modulus", v + 2 ** 61 - 1), ("as-int-subclass", _IntSub(v))]
     elif type(v).__name__ == "Fraction":
         out += [("as-int", int(v))]
     elif callable(v) and getattr(v, "__name__", "").startswith("openssl_"):
@@ -117,6 +133,9 @@ def _perturb(v):
     elif isinstance(v, tuple) and len(v) == 2 and all(isinstance(c, int) and not isinstance(c, bool) for c in v):
         from py_ecc.secp256k1 import secp256k1 as _S
         out.append(("negated", (v[0], (-v[1]) % _S.P)))
+    elif isinstance(v, tuple) and v and all(isinstance(c, int) and not isinstance(c, bool) for c in v):
+        for i in range(len(v)):
+            out.append(("component%d+hash-modulus" % i, v[:i] + (v[i] + 2 ** 61 - 1,) + v[i + 1:]))
     elif SN._is_field_el(v):
         out.append(("+1", v + type(v).one() if hasattr(type(v), "one") else v))
         out.append(("negated", -v))
